@@ -23,16 +23,44 @@
 
 namespace internal {
 
+// |x| mod |y| for finite x >= 0, y > 0: subtracts y * 2^k for decreasing k, every step is exact.
+// odd reports the parity of the integral quotient.
+template <typename T>
+constexpr auto fmod_reduce(T x, T const y, bool& odd) noexcept -> T
+{
+    T t = y;
+    while (t <= x - t) {
+        t += t;
+    }
+    while (true) {
+        if (x >= t) {
+            x -= t;
+            odd = (t == y);
+        } else if (t == y) {
+            odd = false;
+        }
+        if (t == y) {
+            return x;
+        }
+        t /= T(2);
+    }
+}
+
 template <typename T>
 constexpr auto fmod_check(T const x, T const y) noexcept -> T
 {
+    bool odd = false;
     return ( // NaN check
         any_nan(x, y) ? etl::numeric_limits<T>::quiet_NaN() :
-                      // +/- infinite
-            !all_finite(x, y) ? etl::numeric_limits<T>::quiet_NaN()
-                              :
-                              // else
-            x - trunc(x / y) * y
+                      // domain error
+            (is_inf(x) || y == T(0)) ? etl::numeric_limits<T>::quiet_NaN()
+                                     :
+                                     // nothing to reduce
+            (is_inf(y) || x == T(0)) ? x
+                                     :
+                                     // else: exact, with the sign of x
+            x < T(0) ? -fmod_reduce(abs(x), abs(y), odd)
+                     : fmod_reduce(abs(x), abs(y), odd)
     );
 }
 
